@@ -53,6 +53,14 @@ CHECKS = {
                 text='For each trait t (templates of C02..C10) and bystander sets S covering every other trait, with conflicting attributes on the same fields, in one list or separate attributes and before or after t, CBMC decides that t still equals the oracle computed from t\'s attributes alone for all values.',
                 ref='DESIGN.md §4 C15',
                 note=E1_NOTE + ' Behavioural independence only (token-level "unchanged" is not claimed); |S| <= 4 in quick.'),
+    'C17': dict(engine='E4-mir-smt', technique='MIR -> SMT-LIB (string theory) symbolic execution of the loop-free string-edit kernels; z3 and cvc5; rustc replay of models',
+                text='PARTIAL: claimed only for the mechanism "length-indexed string edits when suggesting the unsafe form" (the three *::panic::union_without_unsafe functions). Their MIR is dumped from the current tree on every run and walked symbolically over one SMT string (the printed attribute); every panic-reaching path and every insert_str precondition must be unsat in both solvers under a stated over-approximation of what the attribute can print as. The rest of C17 (arbitrary token mutations, unwraps, stack depth, termination) is outside reach and not claimed.',
+                ref='DESIGN.md §3.4, §4 C17', category='model_checking',
+                note='Partial claim (see text). Trusted base: rustc nightly MIR (-Zunpretty=mir), the call whitelist and the environment assumption in vk/e4.py (ASCII, attribute text <= 48 bytes), z3 4.8.12 and cvc5 1.0 (both must agree); every model is confirmed by compiling the attribute with the real proc macro.'),
+    'C18': dict(engine='E3-cfg-sat', technique='SAT (z3, cvc5 cross-check) over the cfg(feature) structure extracted from the sources, all 4096 subsets symbolic, models replayed with cargo check; Kani/CBMC on a stated list of subsets for behaviour',
+                text='tools/cfgscan extracts the module tree, definitions, use leaves and every path with its cfg stack from the current sources; z3 decides for every (reference, target), every cfg-gated let, every Trait variant / lookup arm / dispatch gate and the compile_error! guard that no feature subset compiles a reference without its target (the subset is the SAT variable); each model is confirmed by a real cargo check -D warnings of that subset. Behavioural equality with the full build is discharged by the E1 harnesses of the enabled traits under 5 (quick) / ~33 (thorough) stated subsets.',
+                ref='DESIGN.md §3.3, §4 C18', category='model_checking',
+                note='Trusted base: the reference model of the crate built by tools/cfgscan (names it cannot see are unconstrained: a miss, never an alarm), z3/cvc5, cargo check for confirmation and for a validation sample of subsets on each run; the behavioural half covers the stated subsets only.'),
     'C19': dict(engine='E1-kani', technique='bounded model checking (Kani/CBMC, CaDiCaL) of the C02..C10 harnesses re-instantiated in hostile naming contexts',
                 text='User identifiers harvested on each run from the quote!/format_ident! templates of /repo/src are used as field, variant and parameter names, and the derive site is placed in a module shadowing Option/Some/None/Result/Ok/Err/Ordering/Clone/Default/Debug/core/std/...; CBMC decides behaviour still equals the oracle for all values in each context. A context that does not compile is surfaced as a compiler verdict (not a solver obligation).',
                 ref='DESIGN.md §4 C19',
@@ -69,7 +77,7 @@ NOT_APPLICABLE = {
     'C16': "the only varying input is std's per-process RandomState seed inside HashMap iteration; it cannot be made symbolic without executing the macro symbolically, which is unavailable here",
 }
 
-PENDING = {k: 'check not built yet at this commit (planned, see DESIGN.md §0); not claimed until it is' for k in ['C17','C18']}
+PENDING = {}
 
 
 def build():
@@ -96,6 +104,8 @@ def build():
         engines=[
             dict(name='E2-applicability', path='vk/e2.py', serves_properties=['C11', 'C12'],
                  kind_free_text='own propositional encoder of impl applicability (z3/cvc5) over the where-clauses extracted from the real in-process expansion; rustc replay of models'),
+            dict(name='E3-cfg-sat', path='vk/e3.py', serves_properties=['C18'], kind_free_text='own SAT encoder of the crate\'s cfg(feature) structure (tools/cfgscan + z3/cvc5), cargo check replay'),
+            dict(name='E4-mir-smt', path='vk/e4.py', serves_properties=['C17'], kind_free_text='own MIR->SMT-LIB encoder for loop-free string kernels (z3 + cvc5 strings), rustc replay'),
             dict(name='E1-kani', path='vk/runner.py', serves_properties=sorted(k for k, c in CHECKS.items() if c['engine'].startswith('E1')),
                  kind_free_text='Kani/CBMC bounded model checking of the code educe generates for enumerated derive requests; symbolic values, variant pairs, bytes'),
         ],
